@@ -941,6 +941,13 @@ impl Store {
                 continue;
             }
 
+            // the atc index pads or cuts the tag value to 182 bytes and has an entry
+            // for every 'd' tag of an event, so we have to compare the event's own
+            // identifier (its first 'd' tag) too
+            if event.tags()?.get_value(b"d") != Some(addr.d.as_slice()) {
+                continue;
+            }
+
             return Ok(Some(event));
         }
 
@@ -1050,9 +1057,11 @@ impl Store {
             let (_key, offset) = result?;
 
             // Our index doesn't have Kind embedded, so we have to check it
+            // ... nor the full identifier (see find_parameterized_replaceable_event_inner)
             let matches = {
                 let event = self.get_event_by_offset(offset)?;
                 event.kind() == addr.kind
+                    && event.tags()?.get_value(b"d") == Some(addr.d.as_slice())
             };
 
             if matches {
